@@ -526,7 +526,7 @@ func raceModels(w *World) {
 			k := 1 + t.Choose(4)
 			for j := 0; j < k; j++ {
 				tr := []string{"ta", "tb"}[t.Choose(2)]
-				switch t.Choose(5) {
+				switch t.Choose(7) {
 				case 0:
 					lists[i] = append(lists[i], func(*Task) {
 						r, _ := m.UpdateTraitMetadata(&traits.TraitMetadata{Name: tr, More: map[string]string{"k": "v"}})
@@ -538,7 +538,15 @@ func raceModels(w *World) {
 						touch(r)
 					})
 				case 2:
-					lists[i] = append(lists[i], func(*Task) { r, _ := m.UpdateMetadata(&traits.Metadata{Name: "x"}); touch(r) })
+					lists[i] = append(lists[i], func(*Task) {
+						r, _ := m.UpdateMetadata(&traits.Metadata{Name: "x", Traits: []*traits.TraitMetadata{{Name: "zz"}, {Name: tr}, {Name: "aa"}}})
+						touch(r)
+					})
+				case 5:
+					lists[i] = append(lists[i], func(*Task) {
+						r, _ := m.MergeMetadata(&traits.Metadata{Membership: &traits.Metadata_Membership{Subsystem: "s"}})
+						touch(r)
+					})
 				case 3:
 					lists[i] = append(lists[i], func(*Task) { r, _ := m.GetMetadata(); touch(r) })
 				default:
